@@ -6,3 +6,13 @@
 package router_address
 
 //@ loop parseTransportOptions 0: bounded 3
+
+// C01 / C03: re-serialising an accepted RouterAddress reproduces exactly the
+// bytes that were consumed.
+//@ lemma C01_C03_ReadRouterAddress(data []byte) {
+//@   ra, rem, err := ReadRouterAddress(data)
+//@   if err == nil {
+//@     b := ra.Bytes()
+//@     assert(len(rem) <= len(data) && seqeq(b, data[:len(data)-len(rem)]))
+//@   }
+//@ }
